@@ -12,4 +12,8 @@ func init() {
 	if false {
 		register("C08", "bounds (work in progress)", "", ruleBounds)
 	}
+	register("C10",
+		"Decided by symbolic byte-layout extraction of the straight-line encoders, compared with tables transcribed from the RFCs: AEAD additional data with and without connection ID, CBC MAC input with and without connection ID, explicit nonce placement, TLS 1.2 PRF labels / seed order / output lengths, key-block partition offsets as linear forms in (mac,key,iv), per-suite (mac,key,iv) constants and record cipher for every ID the registry hands out, client/server key mirror at every cipher construction.",
+		"P_hash iteration, HMAC/HKDF/AES/CCM/ChaCha internals (pinned by known-answer tests); loop-built nonces are covered by a dependency rule only.",
+		ruleRecordLayouts, rulePRFLayouts, ruleKeyBlock, ruleSuiteConstants, ruleKeyMirror)
 }
